@@ -2,6 +2,7 @@ import LiteFSVerif.Driver.Util
 import LiteFSVerif.Driver.RWMutexD
 import LiteFSVerif.Driver.CodecD
 import LiteFSVerif.Driver.EngineD
+import LiteFSVerif.Driver.ClusterD
 
 open LiteFSVerif LiteFSVerif.Driver
 
@@ -16,6 +17,7 @@ def main (args : List String) : IO UInt32 := do
   | ["locktable"] => loop stdin stdout EngineD.step {}; return 0
   | ["import"] => loop stdin stdout EngineD.step {}; return 0
   | ["replica"] => loop stdin stdout EngineD.step {}; return 0
+  | ["cluster"] => loop stdin stdout ClusterD.step {}; return 0
   | ["codec"] => loop stdin stdout Codec.stepModel (); return 0
   | _ =>
     IO.eprintln "usage: modeld <suite>"
